@@ -52,6 +52,12 @@ CHECKS = {
         note="Trusted base: recipe stripping, harness dependency resolver D.",
         ref="2/C07",
     ),
+    "C08": dict(
+        technique="model-based history testing: Hypothesis-generated pools of trees/lists/dependencies/documents and interleavings of the read-only operations, structural snapshot before/after every step and memoised results; tagify independence by id-set disjointness and cross-mutation; view agreement; structural-edit equality laws",
+        text="Seeded generated histories (one history = one shrinkable value) with a before/after snapshot invariant over everything reachable, plus tagify/equality laws on generated trees and edits. Found and fixed HTMLDocument.render() mutating the caller's <html> tag (known_findings.json). Exploration.",
+        note="Trusted base: structural snapshot S (self-tested); payload inside a copied HTMLDependency may be shared (not demanded by the statement).",
+        ref="2/C08",
+    ),
 }
 
 PENDING_REASON = "check not built yet in this revision (work in progress; see DESIGN.md section 2 for the planned generator and oracle)"
